@@ -2,7 +2,7 @@
    Statements only (copied from the lemma libraries); every proof is a bare
    `exact`; see the cited files in coq/proofs for the proofs. *)
 From Coq Require Import List NArith ZArith Bool Arith Sorting.Sorted Sorting.Permutation.
-From D2P Require Import Str Err Xml TableTypes Tables Fmt Bullets Merge Collector Walk ShapeFacts TokFacts FrameFacts BulletsFacts LineageFacts Predicates SeqFacts Iter Output Paths Package Content Utilities UtilFacts PyVal Source SourceBase SourceIter SourcePred.
+From D2P Require Import Str Err Xml TableTypes Tables Fmt Bullets Merge Collector Walk ShapeFacts TokFacts FrameFacts BulletsFacts LineageFacts Predicates SeqFacts Iter Output Paths Package Content Utilities UtilFacts PyVal Source SourceBase SourceIter SourcePred SourceFmt.
 Import ListNotations.
 
 (* for EVERY table written as tbl/tr/tc/p directly nested (any number of rows, cells, paragraphs, any merged cells, any inline content), walked from any reachable state in any part: every paragraph it contributes reports the lineage (tbl, tr, tc, p) - or is the empty fill paragraph of a blanked merged position *)
@@ -195,3 +195,12 @@ Theorem C05_source_is_tc :
   S_is_tc fuel (enc_rose enc_par_lin x) = lift_bool (is_tc x).
 Proof. exact src_is_tc. Qed.
 Print Assumptions C05_source_is_tc.
+
+(* SOURCE TIE: text_runs.get_pStyle as translated from the source text is the model's get_pStyle (the style string of every Par) for every paragraph element *)
+Theorem C05_source_get_pStyle :
+  forall (ext : pv -> pv -> res pv) e ks,
+  braceless (e_local e) -> kid_names_ok ks ->
+  (forall pe pks, In (AE pe pks) ks -> forall se sks, In (AE se sks) pks -> attr_names_ok se) ->
+  S_get_pStyle ext (enc_fel (AE e ks)) = lift_str (get_pStyle e ks).
+Proof. exact src_get_pStyle. Qed.
+Print Assumptions C05_source_get_pStyle.
